@@ -28,7 +28,7 @@ cp SEED/patch.diff "/verif/seeded/$NAME/patch.diff"
 cp SEED/demo_test.go "/verif/seeded/$NAME/demo_test.go"
 cp SEED/notes.md "/verif/seeded/$NAME/notes.md" 2>/dev/null
 rm -f /tmp/seed_demo_hold.go
-cd /verif
+cd "${SEEDCHECK_VERIF:-/verif}"   # SEEDCHECK_VERIF: an isolated copy of /verif (so a check of the same ID may run in /verif meanwhile)
 # the checks run against the patched scratch worktree (VERIF_REPO), so /repo stays untouched and other
 # checks may run on it at the same time; `git -C /repo apply <patch>; ./check; git -C /repo checkout -- .` is equivalent
 git -C "$WT" apply "/verif/seeded/$NAME/patch.diff" || { echo "cannot apply to $WT"; exit 2; }
